@@ -63,7 +63,7 @@ def build(shape, operands, ops, lo=0):
 def operand(rng, i, simple=False):
     V = A.Var
     base = rng.choice([A.Int(rng.randrange(0, 99)), A.Int(-rng.randrange(1, 99)), V("v%d" % i), A.Bool(rng.random() < 0.5),
-                       A.Str("s"), A.Null(), A.lst(A.Int(1)), A.obj(("k", A.Int(1))),
+                       A.Str("s"), A.Null(), A.lst(A.Int(1)), A.obj(("k", A.Int(1))), A.ObjectE([A.Pair(A.Bin("+", A.Str("a"), V("v%d" % i)), A.Bin("*", A.Int(2), A.Int(3)))]),
                        A.FuncE([], False, []) if rng.random() < 0.5 else A.FuncE([V("q")], False, [A.Return(A.Bin("+", V("q"), A.Int(1)))])])
     if simple or rng.random() < 0.5:
         return base
@@ -103,7 +103,28 @@ def parse_work(arg):
             else:
                 tree, _ = build(shp, operands, ops) if n else (operands[0], 1)
                 is_nat = False
-            prog = [A.Declare(A.Var('r'), tree)]
+            # the expression in every statement position that takes one (the grouping must not depend on the host)
+            host = rng.randrange(12)
+            if host == 0:
+                prog = [A.Assign(A.Var('r'), tree)]
+            elif host == 1:
+                prog = [A.OpAssign(rng.choice(["+", "-", "*", "/", "%"]), A.Var('r'), tree)]
+            elif host == 2:
+                prog = [A.ExprStmt(tree)] if not isinstance(tree, (A.ObjectE, A.FuncE)) and not _starts_with_brace(tree) else [A.Declare(A.Var('r'), tree)]
+            elif host == 3:
+                prog = [A.While(tree, [])]
+            elif host == 4:
+                prog = [A.If([(A.Bool(True), []), (tree, [])], None)]
+            elif host == 5:
+                prog = [A.For(A.Var('k'), tree, [])]
+            elif host == 6:
+                prog = [A.FuncStmt("h", [], False, [A.Return(tree)])]
+            elif host == 7:
+                prog = [A.Declare(A.Var('r'), A.ObjectE([A.Pair(tree, A.Int(1)), A.Pair(A.Str("v"), A.clone(tree))]))]
+            elif host == 8:
+                prog = [A.Declare(A.Var('r'), A.Index(A.Var("xs"), tree)), A.Assign(A.RangeIndex(A.Var("xs"), A.clone(tree), None), A.lst())]
+            else:
+                prog = [A.Declare(A.Var('r'), tree)]
             variants = [("minimal", P.Layout())]
             if rng.random() < 0.5:
                 variants.append(("redundant", P.Layout(seed=rng.random(), p_paren=0.35, p_ws=0.2, p_trail=0.4)))
@@ -139,6 +160,23 @@ def parse_work(arg):
         j = len(texts) // 2
         smp = {"source": texts[j], "expected_tree": expects[j] if not isinstance(expects[j], tuple) else expects[j][1], "parser_tree": got[j]}
     return {"n": len(texts), "bad": bad[:5], "nbad": len(bad), "ops": n, "shas": {core.sha(t)[:12] for t in texts}, "sample": smp}
+
+
+def _starts_with_brace(e):
+    """does the expression's spelling begin with `{` or `fn` (which a statement would read as a block / a definition)?"""
+    while True:
+        if isinstance(e, (A.ObjectE, A.FuncE)):
+            return True
+        if isinstance(e, A.Bin):
+            e = e.l
+        elif isinstance(e, A.Range):
+            e = e.a
+        elif isinstance(e, (A.Call,)):
+            e = e.f
+        elif isinstance(e, (A.Index, A.RangeIndex, A.Prop)):
+            e = e.e
+        else:
+            return False
 
 
 def _strip_operand_parens(text, operands):
